@@ -18,8 +18,10 @@ CONSTANTS
   FinalReset = TRUE
   CompRebases = TRUE
   MaxUser = 0
+  CompSkips = FALSE
 INVARIANT TypeOK
 INVARIANT RowsTrue
+INVARIANT RowsCompensated
 INVARIANT NominalReproduced
 INVARIANT Reproducible
 INVARIANT EndStateNominal
